@@ -356,7 +356,10 @@ class State:
         ob = self.ex.obligations.get(key)
         if ob is not None and ob.status == "covered":
             return
-        r, _ = self._check(z3.BoolVal(True), self.cfg.oblig_timeout_ms)
+        # a contract whose path conditions carry quantified facts may set `cover_timeout_ms`: the reachability query
+        # of a vacuity guard then gives up earlier on the paths where z3 cannot build a model (the guard is
+        # satisfied by any one path that answers sat; `unknown` never counts as covered)
+        r, _ = self._check(z3.BoolVal(True), getattr(self.cfg, "cover_timeout_ms", None) or self.cfg.oblig_timeout_ms)
         if ob is None:
             ob = Obligation(name, "cover")
             self.ex.obligations[key] = ob
